@@ -5,7 +5,7 @@ from units.mk import Unit, COMMON
 
 def _conc(ctx):
     from units import conc
-    conc.conc_sessions(ctx, int((20 if ctx.tier == "quick" else 300) * ctx.budget))
+    conc.conc_sessions(ctx, int((700 if ctx.tier == "quick" else 8000) * ctx.budget))
 
 
 Unit([("shell", scen.gen_shell, 1)], (oracles.o_c01, oracles.o_lean_c01) + COMMON,
